@@ -46,7 +46,8 @@ RULE = ("(a) csv level: random dialects from cutplace's option space (11 delimit
         "special character, blanks, CR and LF: written with DelimitedRowWriter, read back with delimited_rows, "
         "must be identical. Non-trivial: some cell contains a configured special character. Distinct = distinct case.")
 TRUSTED = ["Model/Delimited.v is a hand-written model of CPython 3.12 _csv (writer and strict reader) for the dialect options cutplace passes; validated against the csv module on every run"]
-ASSUMPTIONS = ["skip_initial_space is off (as the property states)", "io.StringIO(newline='') delivers the characters unchanged; line splitting is the reader's universal newline handling"]
+ASSUMPTIONS = ["skip_initial_space is off (as the property states)", "io.StringIO(newline='') delivers the characters unchanged; line splitting is the reader's universal newline handling",
+               "cells are shorter than csv.field_size_limit() (131072); beyond that limit the implementation deviates from the model: open known finding"]
 
 QUOTES = sorted("!\"#$%&'*+-/:;=?\\^_`~")
 ESCAPES = ['"', "\\"]
